@@ -57,9 +57,13 @@ func init() {
 		{"C07", "adder", props.C07adder},
 		{"C05", "adder", props.C07adder},
 		{"C17", "garble", props.C01},
+		{"C18", "puts", props.C17puts},
 		{"C12", "signedread", props.SignedReads},
 		{"C03", "signedread", props.SignedReads},
 		{"C09", "levels", props.LevelsKeepOrder},
+		{"C09", "deadoutput", props.DeadNotOutput},
+		{"C05", "deadoutput", props.DeadNotOutput},
+		{"C10", "deadoutput", props.DeadNotOutput},
 		{"C10", "levels", props.LevelsKeepOrder},
 		{"C20", "voleext", props.VoleExtensionCounts},
 		{"C14", "seenorder", props.SeenOrder},
